@@ -113,6 +113,47 @@ pub fn to_tuples(updates: &[Update]) -> Vec<Tuple> {
         .collect()
 }
 
+/// Replay an update log to the current *set* of tuples.
+///
+/// Relations are sets: inserting a tuple that is already present and deleting one that
+/// is absent are no-ops in memory, yet every requested tuple is logged with a +1 / -1
+/// diff. Summing diffs across time therefore does not reproduce the live relation
+/// (`+1, +1, -1` sums to 1 although the tuple was deleted; `-1, +1` sums to 0 although
+/// it was inserted). The last operation that mentioned a tuple does: a tuple is present
+/// iff the updates at its highest logical time have a positive total diff. Updates that
+/// share a logical time come from one operation (or from `consolidate`, which sums diffs
+/// per (data, time)), so they are summed.
+///
+/// Tuples are returned in order of first appearance in the log.
+pub fn replay_to_current(updates: &[Update]) -> Vec<Tuple> {
+    use std::collections::HashMap;
+
+    // data -> (latest time seen, summed diff at that time)
+    let mut latest: HashMap<&Tuple, (u64, i64)> = HashMap::new();
+    let mut order: Vec<&Tuple> = Vec::new();
+    for u in updates {
+        match latest.get_mut(&u.data) {
+            None => {
+                latest.insert(&u.data, (u.time, u.diff));
+                order.push(&u.data);
+            }
+            Some(entry) => {
+                if u.time > entry.0 {
+                    *entry = (u.time, u.diff);
+                } else if u.time == entry.0 {
+                    entry.1 += u.diff;
+                }
+            }
+        }
+    }
+
+    order
+        .into_iter()
+        .filter(|t| latest.get(*t).is_some_and(|e| e.1 > 0))
+        .cloned()
+        .collect()
+}
+
 /// Convert consolidated updates to tuples with their multiplicities.
 ///
 /// Useful for debugging or multiset semantics.
@@ -143,6 +184,48 @@ mod tests {
         let mut updates: Vec<Update> = vec![];
         consolidate(&mut updates);
         assert!(updates.is_empty());
+    }
+
+    #[test]
+    fn test_replay_duplicate_insert_then_delete() {
+        // insert x twice (second is a no-op in memory), then delete x: x is gone
+        let x = Tuple::from_pair(1, 2);
+        let updates = vec![
+            Update::insert(x.clone(), 1),
+            Update::insert(x.clone(), 2),
+            Update::delete(x, 3),
+        ];
+        assert!(replay_to_current(&updates).is_empty());
+    }
+
+    #[test]
+    fn test_replay_absent_delete_then_insert() {
+        // delete of an absent tuple is a no-op in memory; the later insert stands
+        let x = Tuple::from_pair(1, 2);
+        let y = Tuple::from_pair(3, 4);
+        let updates = vec![
+            Update::delete(x.clone(), 1),
+            Update::insert(y.clone(), 2),
+            Update::insert(x.clone(), 3),
+        ];
+        assert_eq!(replay_to_current(&updates), vec![x, y]);
+    }
+
+    #[test]
+    fn test_replay_after_consolidate() {
+        // compaction sums diffs per (data, time); the replay result is unchanged
+        let x = Tuple::from_pair(1, 2);
+        let mut updates = vec![
+            Update::insert(x.clone(), 1),
+            Update::insert(x.clone(), 1),
+            Update::delete(x.clone(), 2),
+            Update::insert(x.clone(), 3),
+            Update::insert(x.clone(), 3),
+        ];
+        let before = replay_to_current(&updates);
+        consolidate(&mut updates);
+        assert_eq!(replay_to_current(&updates), before);
+        assert_eq!(before, vec![x]);
     }
 
     #[test]
